@@ -63,9 +63,9 @@ structure FwTrace where
 def Fw.snap {σ} (s : Fw σ) : Snap :=
   { rts := s.rt.map fun r =>
       { state := r.currentState, limit := r.stateLimit, ctrA := r.counterA, ctrB := r.counterB,
-        padding := r.paddingSent, normal := r.normalSent, blockingNs := r.blockingDur },
-    now := s.now, normal := s.normalSent, padding := s.paddingSent, blockingNs := s.blockingDur,
-    blockingStarted := s.blockingStarted, blockingActive := s.blockingActive,
+        padding := r.acct.paddingSent, normal := r.acct.normalSent, blockingNs := r.acct.blockingDur },
+    now := s.g.now, normal := s.g.normalSent, padding := s.g.paddingSent, blockingNs := s.g.blockingDur,
+    blockingStarted := s.g.blockingStarted, blockingActive := s.g.blockingActive,
     signalPending := s.signalPending, zeroedA := s.zeroedA, zeroedB := s.zeroedB }
 
 end Mb
